@@ -382,7 +382,7 @@ int main(int argc,char **argv)
 		std::vector<std::string> v=split(line);
 		std::string out;
 		alarm(60);
-		if(v.size()>=4 && v[0]=="seq") {
+		if(v.size()>=4 && (v[0]=="seq" || v[0]=="prs")) {   // prs = seq under memory pressure (same execution, oracle only)
 			unsigned limit=strtoul(v[2].c_str(),0,10);
 			vnow=strtoll(v[3].c_str(),0,10);
 			if(v[1]=="t") {
